@@ -40,9 +40,10 @@ func vfLoad(tb testing.TB) []json.RawMessage {
 }
 
 type vfWriter struct {
-	f *os.File
-	w *bufio.Writer
-	n int
+	f   *os.File
+	w   *bufio.Writer
+	n   int
+	own *vfWriter // side trace (VERIF_OUT + ".own"): objects handed out by the code under test, re-inspected later
 }
 
 // vfOut opens the ndjson trace file named by VERIF_OUT.
@@ -76,8 +77,60 @@ func (o *vfWriter) Emit(v any) {
 
 // Close flushes the trace.
 func (o *vfWriter) Close() {
+	if o.own != nil {
+		o.own.Close()
+	}
 	o.w.Flush() //nolint:errcheck
 	o.f.Close() //nolint:errcheck
+}
+
+// vfKept remembers objects the code under test handed out (a report, a feedback packet, a NACK) together with their
+// rendering at that moment; Flush renders each of them again at the end of the script.  Both renderings go to the side
+// trace validated by spec/Trace_Handout.tla: what has been handed out belongs to the consumer and must not change when
+// the producer goes on working (a reused scratch buffer, a recycled packet object).
+type vfKept struct {
+	out   *vfWriter
+	items []vfKeptItem
+}
+
+type vfKeptItem struct {
+	snap   json.RawMessage
+	render func() any
+}
+
+// NewKept starts the hand-out record of one script (call it once per script, after the script's reset event).
+func (o *vfWriter) NewKept() *vfKept {
+	if o.own == nil {
+		f, err := os.Create(os.Getenv("VERIF_OUT") + ".own")
+		if err != nil {
+			panic(err)
+		}
+		o.own = &vfWriter{f: f, w: bufio.NewWriterSize(f, 1<<20)}
+	}
+	o.own.Emit(vfM{"a": "reset"})
+
+	return &vfKept{out: o.own}
+}
+
+// Keep records one object that was just handed out; render must read the object itself (not a copy).
+func (k *vfKept) Keep(render func() any) {
+	b, err := json.Marshal(render())
+	if err != nil {
+		panic(err)
+	}
+	k.items = append(k.items, vfKeptItem{snap: b, render: render})
+}
+
+// Flush re-renders every kept object and logs one event per object.
+func (k *vfKept) Flush() {
+	for i, it := range k.items {
+		b, err := json.Marshal(it.render())
+		if err != nil {
+			panic(err)
+		}
+		k.out.Emit(vfM{"a": "own", "k": i, "emit": it.snap, "end": json.RawMessage(b)})
+	}
+	k.items = nil
 }
 
 type vfM = map[string]any
